@@ -1,4 +1,5 @@
 import TruthModel.Model.Fmt
+import TruthModel.Model.FmtExpr
 import TruthModel.Driver.Sexp
 /-
 Driver glue for C08 (trusted, not part of any theorem).
@@ -10,6 +11,18 @@ Cases:
   (lexint "text")                            -> (int V) | bad-int | other    Fmt.evalLiteral
   (lex "text")                               -> (toks eof|invalid|comment (CLASS "text")...)   Fmt.lex
   (layout W DOC)   DOC ::= "atom text" | (l DOC...)   -> (ok "text")   Fmt.render of nested `[..]` lists
+  (eprint EXPR)                              -> (ok "text")            FmtExpr.printText (unlimited width)
+  (eprintw W EXPR)                           -> (ok "text")            FmtExpr.renderExpr W (inline / block argument lists)
+  (etoks W EXPR)                             -> (toks END (CLASS "text")...)
+        the tokens of the printed expression (width-independent): `FmtExpr.printExpr` when
+        `FmtExpr.NoGlue` holds (this is the hypothesis `LexOK` of `expr_print_parse_text`, compared
+        with the real lexer on the real text), otherwise `Fmt.lex` of `printText`
+  (eparse "text")                            -> (ok EXPR) | reject     FmtExpr.parseText
+  EXPR ::= (tern C L R) | (bin OP A B) | (un OP X) | (xcr pre|post inc|dec VAR) | (var VAR)
+         | (call NAME (ps (KIND EXPR)...) EXPR...) | (switch (EXPR | _)...)
+         | (int V signed|unsigned dec|hex|bin|bool) | (flt BITS "magnitude text") | (fltt "token text")
+         | (str "s") | (labelprop offsetof|timeof "l") | (enumc "e" "i")
+  VAR ::= (v none|int|float n "name") | (v none|int|float r N)     NAME ::= (n "ident") | (ins N)
 -/
 namespace TruthModel.Driver.C08
 open TruthModel TruthModel.Fmt
@@ -42,6 +55,140 @@ partial def toDocs (xs : List Sexp) : Docs :=
   | x :: r => .cons (toDoc x) (toDocs r)
 end
 
+/-! ### expressions -/
+open TruthModel.FmtExpr
+
+def binOpNames : List (String × BinOp) :=
+  [("Add", .add), ("Sub", .sub), ("Mul", .mul), ("Div", .div), ("Rem", .rem), ("Eq", .eq), ("Ne", .ne),
+   ("Lt", .lt), ("Le", .le), ("Gt", .gt), ("Ge", .ge), ("BitOr", .bitOr), ("BitXor", .bitXor),
+   ("BitAnd", .bitAnd), ("LogicOr", .logicOr), ("LogicAnd", .logicAnd), ("ShiftLeft", .shl),
+   ("ShiftRightSigned", .shr), ("ShiftRightUnsigned", .ushr)]
+
+def unOpNames : List (String × UnOp) :=
+  [("Not", .not), ("Neg", .neg), ("BitNot", .bitNot), ("Sin", .sin), ("Cos", .cos), ("Tan", .tan),
+   ("Asin", .asin), ("Acos", .acos), ("Atan", .atan), ("Sqrt", .sqrt), ("EncodeI", .encI),
+   ("EncodeF", .encF), ("CastI", .castI), ("CastF", .castF)]
+
+def pseudoNames : List (String × PseudoKind) :=
+  [("mask", .mask), ("pop", .pop), ("blob", .blob), ("arg0", .arg0), ("nargs", .nargs)]
+
+def lookupD {α : Type} (l : List (String × α)) (k : String) (d : α) : α :=
+  match l.find? (fun p => p.1 == k) with
+  | some p => p.2
+  | none => d
+
+def nameOf {α : Type} [BEq α] (l : List (String × α)) (x : α) : String :=
+  match l.find? (fun p => p.2 == x) with
+  | some p => p.1
+  | none => "?"
+
+def sigilOf (s : String) : Option Sigil :=
+  match s with
+  | "int" => some .int | "float" => some .float | _ => none
+
+def toVar (s : Sexp) : Var :=
+  let a := s.args
+  let nm : VarName := if (a[1]!).asAtom == "r" then .reg (Int32.ofInt (a[2]!).asInt) else .normal (a[2]!).asAtom.toList
+  { sigil := sigilOf (a[0]!).asAtom, name := nm }
+
+/-- the float of a case: sign and class from the bit pattern, digits as given (a parameter) -/
+def floatOf (bits : Nat) (text : String) : Expr :=
+  let neg := bits ≥ 2147483648
+  let exp := (bits / 8388608) % 256
+  let man := bits % 8388608
+  if exp = 255 ∧ man ≠ 0 then .litFloat false .nan
+  else if exp = 255 then .litFloat neg .inf
+  else .litFloat neg (.num text.toList)
+
+mutual
+partial def toExpr (s : Sexp) : Expr :=
+  let a := s.args
+  match s.head? with
+  | some "tern" => .ternary (toExpr (a[0]!)) (toExpr (a[1]!)) (toExpr (a[2]!))
+  | some "bin" => .binop (toExpr (a[1]!)) (lookupD binOpNames (a[0]!).asAtom .add) (toExpr (a[2]!))
+  | some "un" => .unop (lookupD unOpNames (a[0]!).asAtom .neg) (toExpr (a[1]!))
+  | some "xcr" => .xcrement ((a[0]!).asAtom == "pre") ((a[1]!).asAtom == "inc") (toVar (a[2]!))
+  | some "var" => .var (toVar (a[0]!))
+  | some "call" =>
+    let name : CallName := if (a[0]!).head? == some "ins" then .ins ((a[0]!).args[0]!).asNat else .normal ((a[0]!).args[0]!).asAtom.toList
+    .call name (toPseudos (a[1]!).args) (toExprs (a.drop 2))
+  | some "switch" => .diffSwitch (toCases a)
+  | some "int" => .litInt (Int32.ofInt (a[0]!).asInt) { signed := (a[1]!).asAtom == "signed", radix := radixOf (a[2]!).asAtom }
+  | some "flt" => floatOf (a[0]!).asNat (a[1]!).asAtom
+  | some "fltt" => .litFloat false (.num (a[0]!).asAtom.toList)
+  | some "str" => .litString (a[0]!).asAtom.toList
+  | some "labelprop" => .labelProp (if (a[0]!).asAtom == "timeof" then .timeof else .offsetof) (a[1]!).asAtom.toList
+  | some "enumc" => .enumConst (a[0]!).asAtom.toList (a[1]!).asAtom.toList
+  | _ => .litString "bad-expr".toList
+partial def toExprs (xs : List Sexp) : Exprs :=
+  match xs with
+  | [] => .nil
+  | x :: r => .cons (toExpr x) (toExprs r)
+partial def toPseudos (xs : List Sexp) : Pseudos :=
+  match xs with
+  | [] => .nil
+  | x :: r => .cons (lookupD pseudoNames (x.items[0]!).asAtom .mask) (toExpr (x.items[1]!)) (toPseudos r)
+partial def toCases (xs : List Sexp) : Cases :=
+  match xs with
+  | [] => .nil
+  | x :: r => if x.asAtom == "_" && x.head?.isNone then .blank (toCases r) else .some (toExpr x) (toCases r)
+end
+
+def sigilName : Option Sigil → String
+  | none => "none" | some .int => "int" | some .float => "float"
+
+def varSexp (v : Var) : Sexp :=
+  match v.name with
+  | .normal id => Sexp.app "v" [.atom (sigilName v.sigil), .atom "n", str id]
+  | .reg n => Sexp.app "v" [.atom (sigilName v.sigil), .atom "r", Sexp.int n.toInt]
+
+def radixName : Radix → String
+  | .dec => "dec" | .hex => "hex" | .bin => "bin" | .bool => "bool"
+
+mutual
+partial def exprSexp (e : Expr) : Sexp :=
+  match e with
+  | .ternary c l r => Sexp.app "tern" [exprSexp c, exprSexp l, exprSexp r]
+  | .binop a op b => Sexp.app "bin" [.atom (nameOf binOpNames op), exprSexp a, exprSexp b]
+  | .unop op x => Sexp.app "un" [.atom (nameOf unOpNames op), exprSexp x]
+  | .xcrement pre inc v => Sexp.app "xcr" [.atom (if pre then "pre" else "post"), .atom (if inc then "inc" else "dec"), varSexp v]
+  | .var v => Sexp.app "var" [varSexp v]
+  | .call name ps as =>
+    let n := match name with
+      | .normal id => Sexp.app "n" [str id]
+      | .ins k => Sexp.app "ins" [Sexp.nat k]
+    Sexp.app "call" (n :: Sexp.app "ps" (pseudosSexp ps) :: exprsSexp as)
+  | .diffSwitch cs => Sexp.app "switch" (casesSexp cs)
+  | .litInt v f => Sexp.app "int" [Sexp.int v.toInt, .atom (if f.signed then "signed" else "unsigned"), .atom (radixName f.radix)]
+  | .litFloat neg b =>
+    match b with
+    | .num t => if neg then Sexp.app "fltneg" [str t] else Sexp.app "fltt" [str t]
+    | .inf => Sexp.app "fltinf" [.atom (if neg then "neg" else "pos")]
+    | .nan => Sexp.app "fltnan" []
+  | .litString s => Sexp.app "str" [str s]
+  | .labelProp kw l => Sexp.app "labelprop" [.atom (match kw with | .offsetof => "offsetof" | .timeof => "timeof"), str l]
+  | .enumConst en id => Sexp.app "enumc" [str en, str id]
+partial def exprsSexp (es : Exprs) : List Sexp :=
+  match es with
+  | .nil => []
+  | .cons e r => exprSexp e :: exprsSexp r
+partial def pseudosSexp (ps : Pseudos) : List Sexp :=
+  match ps with
+  | .nil => []
+  | .cons k e r => Sexp.list [.atom (nameOf pseudoNames k), exprSexp e] :: pseudosSexp r
+partial def casesSexp (cs : Cases) : List Sexp :=
+  match cs with
+  | .nil => []
+  | .blank r => .atom "_" :: casesSexp r
+  | .some e r => exprSexp e :: casesSexp r
+end
+
+/-- block layout writes a comma after the last item: not a token the inline layout has -/
+def dropTrailingCommas : List Tok → List Tok
+  | [] => []
+  | .punct [','] :: .punct [')'] :: r => .punct [')'] :: dropTrailingCommas r
+  | t :: r => t :: dropTrailingCommas r
+
 def handle (case : Sexp) : Sexp :=
   let a := case.args
   match case.head? with
@@ -66,6 +213,16 @@ def handle (case : Sexp) : Sexp :=
     let r := lex (a[0]!).asAtom.toList
     Sexp.app "toks" (.atom (endName r.2) :: r.1.map tokSexp)
   | some "layout" => Sexp.app "ok" [str (render (a[0]!).asNat (toDoc (a[1]!)))]
+  | some "eprint" => Sexp.app "ok" [str (printText (toExpr (a[0]!)))]
+  | some "eprintw" => Sexp.app "ok" [str (renderExpr (a[0]!).asNat (toExpr (a[1]!)))]
+  | some "etoks" =>
+    let e := toExpr (a[1]!)
+    let r : List Tok × LexEnd := if NoGlue e then (printExpr e, .eof) else lex (printText e)
+    Sexp.app "toks" (.atom (endName r.2) :: (dropTrailingCommas r.1).map tokSexp)
+  | some "eparse" =>
+    match parseText (a[0]!).asAtom.toList with
+    | some e => Sexp.app "ok" [exprSexp e]
+    | none => .atom "reject"
   | _ => .atom "bad-case"
 
 end TruthModel.Driver.C08
